@@ -41,6 +41,12 @@ func verifC09KeySets() {
 		default:
 			suites = all[1:]
 		}
+		if vBool() {
+			// ... or the target's own key pair published under another config (other public name):
+			// the info string differs, so this key must neither open the payload nor get in the way
+			keys = append(keys, vMakeKey(0, vByte(), suites, []byte("other.example")).key())
+			continue
+		}
 		keys = append(keys, vMakeKey(i+1, vByte(), suites, name).key())
 	}
 	c, err := NewConn(context.Background(), newVTransport(s.outer.record()), WithKeys(keys))
